@@ -30,6 +30,7 @@ From KV Require Import Base.Bytes Base.Num Base.Flt Model.Ast Model.Value Model.
                        Model.Checker Spec.Typing Proofs.CheckerProofs
                        Proofs.TypeSafety2Proofs Proofs.TypeSafetyVecProofs.
 From KV Require Model.Fold Model.FoldStmt Model.Pipeline.
+From KV Require Corr.C14Agg.
 
 Fixpoint expr_eqb (a b : expr) {struct a} : bool :=
   let list_eqb :=
@@ -256,8 +257,18 @@ Definition check_evals (c : case) : nat :=
       end
   end.
 
+(* mode 3 (harness/c14agg.go): an aggregated SELECT TEXT, judged by Corr/C14Agg.v against
+   Model/AggInit.parse_check_agg.  The text travels in obs_store (first pair, first component);
+   obs_tree = Some _ says that the returned plan holds an AggregatePlan; obs_typeerr says that
+   draining the accepted plan panicked; cstmt is not used. *)
+Definition agg_case (c : case) : nat :=
+  C14Agg.check_agg_text (match obs_store c with (q, _) :: _ => q | [] => ""%string end)
+                        (obs_cls c) (obs_pos c) (obs_calls c)
+                        (match obs_tree c with Some _ => true | None => false end) (obs_typeerr c).
+
 Definition check_case (c : case) : nat :=
   match cmode c with
+  | 3 => agg_case c
   | 2 => 0
   | 1 => worst14 [twin_vs_impl c; check_evals c]
   | _ =>
